@@ -326,8 +326,8 @@ impl AssemblyCode {
                 match &second {
                     None => return removed_instructions,
                     Some(AsmLine::Instruction(_)) => break,
-                    Some(AsmLine::Label(_)) => {
-                        // If this is a label, restart
+                    Some(AsmLine::Label(_)) | Some(AsmLine::Inline(_, _)) => {
+                        // If this is a label (or inline assembly, which may do anything), restart
                         first = iter.next();
                         loop {
                             match &first {
